@@ -200,11 +200,37 @@ func VerifC13ClientImports() {
 func VerifC13CodecLocals() {
 	w := c12NewWorld()
 	m := verif.NewMessage("acme.v1", "M")
-	feature := verif.Choice("feature", 4)
+	feature := verif.Choice("feature", 6)
 	o := &descriptorpb.FieldOptions{}
 	d := &verif.FieldDesc{FName: "f1", FJSON: "f1", FNumber: 1, FOpts: o}
 	f := verif.AddField(m, d, "F1")
+	var extra []*protogen.Message
 	switch feature {
+	case 4:
+		// root unwrap: a single repeated field (scalar or message elements)
+		d.FList = true
+		verif.SetExt(o, http.E_Unwrap, true)
+		if verif.Bool("unwrap.messageElements") {
+			d.FKind, d.FMsg = protoreflect.MessageKind, w.child.Desc
+			f.Message = w.child
+		} else {
+			d.FKind = protoreflect.StringKind
+		}
+	case 5:
+		// map<string, Wrapper> whose value type has an unwrap list of scalars, next to a scalar field
+		wrapper := verif.NewMessage("acme.v1", "Wrapper")
+		wo := &descriptorpb.FieldOptions{}
+		verif.SetExt(wo, http.E_Unwrap, true)
+		verif.AddField(wrapper, &verif.FieldDesc{FName: "items", FJSON: "items", FKind: protoreflect.StringKind, FList: true, FNumber: 1, FOpts: wo}, "Items")
+		entry := &protogen.Message{Desc: &verif.MessageDesc{MName: "F1Entry", MFullName: "acme.v1.M.F1Entry", MMapEntry: true},
+			GoIdent: protogen.GoIdent{GoName: "M_F1Entry", GoImportPath: verif.ImportPath}}
+		verif.AddField(entry, &verif.FieldDesc{FName: "key", FJSON: "key", FKind: protoreflect.StringKind, FNumber: 1}, "Key")
+		vf := verif.AddField(entry, &verif.FieldDesc{FName: "value", FJSON: "value", FKind: protoreflect.MessageKind, FNumber: 2, FMsg: wrapper.Desc}, "Value")
+		vf.Message = wrapper
+		d.FKind, d.FMap, d.FMsg = protoreflect.MessageKind, true, entry.Desc
+		f.Message = entry
+		verif.AddField(m, &verif.FieldDesc{FName: "note", FJSON: "note", FKind: protoreflect.StringKind, FNumber: 2, FOpts: &descriptorpb.FieldOptions{}}, "Note")
+		extra = append(extra, wrapper)
 	case 0:
 		d.FKind, d.FMsg = protoreflect.MessageKind, w.ts.Desc
 		f.Message = w.ts
@@ -221,7 +247,7 @@ func VerifC13CodecLocals() {
 		d.FList = verif.Bool("repeated")
 		verif.SetExt(o, http.E_Int64Encoding, http.Int64Encoding(verif.Choice("int64Encoding", 3)))
 	}
-	files, _ := c12Place(m, w.child)
+	files, _ := c12Place(m, append([]*protogen.Message{w.child}, extra...)...)
 	ps, pc := &protogen.Plugin{Files: files}, &protogen.Plugin{Files: files}
 	verif.Assert("C13/codec/server-accepts", New(ps).Generate() == nil)
 	verif.Assert("C13/codec/client-accepts", clientgen.VerifGenerateWith(pc) == nil)
